@@ -215,6 +215,9 @@ def run(res, tier):
     for w in pmap(_work, permuted(units, "c03"), chunk=8):
         res.merge_worker(w)
     witness_check(res)
+    from ..common import hostile_runs
+
+    hostile_runs(res, "mc.checks.c03", "_work", [[["12.5"] * 8, 6, 64], [["16.66", "16.67"] * 3, 6, 64], [["1", "2", "3"], 8, 64], [["0.1", "0.2", "0.7"], 8, 64], [["1", "1"], 8, 64]])
     if res.cov.get("seam_ineffective"):
         res.caps.append(f"MD5 seam ineffective for {res.cov['seam_ineffective']} vectors (binning no longer hashes through hashlib.md5): boundary positions only covered by real ids / witnesses")
     res.set("bounds", dict(b, vectors=len(vs)))
@@ -227,6 +230,10 @@ def run(res, tier):
 
 def replay(data):
     kind = data.get("kind")
+    if data.get("host_environment"):
+        from ..common import replay_in_host
+
+        return replay_in_host(data, "mc.checks.c03", "_work", [[data["weights"], 8, 64]])
     if kind in ("realid", "witness"):
         return progcheck.replay_eval(data)
     v = data["weights"]
